@@ -184,7 +184,7 @@ func setViaOps(ss []rstep, rng *mon.RNG, runBias int) {
 
 func runRacing(t *testing.T, idx int, rng *mon.RNG) {
 	ctl, workers, hold := genRacing(rng)
-	chain := pickChain(rng)
+	chain := pickChain(rng, false)
 	if chain != "none" {
 		blocky := func(ss []rstep) {
 			for i := range ss {
